@@ -208,9 +208,12 @@ NumReplay == [c \in {ncase} |-> [ty |-> c.ty, op |-> c.op, mode |-> c.mode, a |-
 PrintNum == PrintT(<<"REPLAY", ToJson(NumReplay)>>)
 
 \* self-consistency of the numeric model on the case at hand
+\* (on the types of at most 8 bytes: the operators are generic in the width, and the 16/32-byte cases cost seconds each)
 NumLaws ==
     LET c == ncase w == NW(c.ty) a == FromBE(c.a) x == NumExpect(c) IN
+    (w <= 8) =>
     /\ x.out \in {"return", "revert"}
+    /\ (c.b # <<>>) => MulFast(a, FromBE(c.b)) = MulFull(a, FromBE(c.b))
     /\ (c.op = "sub" /\ x.out = "return" /\ c.mode = "D") =>
           Add(FromBE(x.items[1].b), FromBE(c.b)).v = a                       \* (a - b) + b = a
     /\ (c.op \in {"div", "mod"} /\ ~IsZero(FromBE(c.b))) =>
